@@ -718,6 +718,10 @@ Section PoolSerial.
                   ~ In (t_id t) (pool_ids n))
     | PValidate ts perm =>
       (exists e, pool_sop p n = (n, RVal (Refused e))) \/
+      (exists n', pool_sop p n = (n', RVal (Refused ETime)) /\ n_c n' = n_c n /\
+                  chain (n_c n) <> [] /\ (ts <= last_block_ts (chain (n_c n)))%Z /\
+                  (Permutation perm (seq 0 (length (elems (n_pool n)))) ->
+                   Permutation (pool_ids n) (pool_ids n'))) \/
       (exists n' d b, pool_sop p n = (n', RVal (Produced d)) /\
                       chain (n_c n') = chain (n_c n) ++ [b] /\ pool_ids n' = [] /\
                       incl (body b) (elems (n_pool n)) /\
@@ -733,7 +737,7 @@ Section PoolSerial.
       split; [rewrite (pool_add_node _ _ _ _ _ _ _ E); reflexivity|].
       apply pool_add_sound in E. cbv zeta in E. destruct E as [_ [_ [Hni _]]]. exact Hni.
     - destruct (validate n ts perm) as [n' [d|e]] eqn:E.
-      + right. apply validate_produced in E. cbv zeta in E.
+      + right. right. apply validate_produced in E. cbv zeta in E.
         destruct E as [kept [reward [u0 [_ [Hk [_ [Hd [Hc [Hp [Hincl [Htxs _]]]]]]]]]]].
         exists n', d. eexists. split; [reflexivity|]. split; [exact Hc|].
         split; [unfold pool_ids; rewrite Hp; reflexivity|].
@@ -742,7 +746,13 @@ Section PoolSerial.
         cbn [pop_ok]. intros Hperm. rewrite Hd, greedy_log_ids, <- map_app.
         unfold pool_ids. apply Permutation_map. apply Permutation_sym. rewrite Hk.
         apply validate_tries_all. exact Hperm.
-      + left. exists e. apply validate_refused_same in E. destruct E as [-> _]. reflexivity.
+      + destruct (validate_refused_cases _ _ _ _ _ _ _ _ _ _ _ _ E) as [[-> _]|(-> & Hne & Hle & ->)];
+          [left; exists e; reflexivity|].
+        right. left. eexists. split; [reflexivity|]. split; [reflexivity|].
+        split; [exact Hne|]. split; [exact Hle|].
+        intros Hperm. unfold pool_ids. cbn [n_pool].
+        destruct (n_pool n) as [l|]; [|apply Permutation_refl]. cbn [elems] in Hperm |- *.
+        apply Permutation_map, Permutation_sym, permute_perm. exact Hperm.
     - reflexivity.
   Qed.
 
@@ -762,9 +772,11 @@ Section PoolSerial.
         exists []; rewrite !app_nil_r.
       + split; [reflexivity|apply Permutation_refl].
       + split; [rewrite Hcs; reflexivity|]. rewrite Hids. apply Permutation_refl.
-    - destruct Hc as [[e E]|[n' [d [b [E [Hch [Hids [_ Hperm]]]]]]]]; rewrite E;
-        cbn [fst snd step_accepted step_dropped].
+    - destruct Hc as [[e E]|[[n' [E [Hcs [_ [_ Hperm]]]]]|[n' [d [b [E [Hch [Hids [_ Hperm]]]]]]]]];
+        rewrite E; cbn [fst snd step_accepted step_dropped].
       + exists []. rewrite !app_nil_r. split; [reflexivity|apply Permutation_refl].
+      + exists []. cbn [flat_map]. rewrite !app_nil_r. split; [rewrite Hcs; reflexivity|].
+        apply Hperm. exact Hok.
       + exists [b]. split; [exact Hch|]. rewrite Hids. cbn [flat_map app]. rewrite !app_nil_r.
         apply Hperm. exact Hok.
     - rewrite Hc. cbn [fst snd step_accepted step_dropped]. exists []. rewrite !app_nil_r.
